@@ -11,3 +11,7 @@ func verifDriverCookie(ch *clientHelloMsg) {}
 const verifDatagramStack = false
 
 func verifIsHelloVerifyRequest(msg handshakeMessage) bool { return false }
+
+func verifDriverWrite(c *Conn, data []byte)  {}
+func verifDriverFlush(c *Conn) (int, error) { return 0, nil }
+func verifDriverTimeout() error              { return nil }
